@@ -8,6 +8,8 @@
           25 = an emit while silenced called something or returned a value
           26 = a reporter's completion announcements violate "exactly once per crossing"
           27 = a reporter's progress events / value / maximum differ from the history reading
+          28 = with a raising callback: the calls made are not the expected calls up to and including the
+               first raising one, or the exception did not propagate out of emit (C19_dispatch_raising)
           3  = input outside the stated regime (a silent() block left that was never entered): harness bug
    Concrete instance used by the harness: the emit arguments are (positional ints, sorted keyword
    (key, int) pairs); every harness callback returns the record of what it received. *)
@@ -26,12 +28,20 @@ Definition hout := out payload hcall.
 Inductive oobs := Ob (o : hout) | ObExc.
 Record pobs := mkpobs { po_events : list pev; po_value : Z; po_max : Z }.
 
+(* stage 3: histories in which the callbacks whose id is in [raisers] raise *)
+Definition houtx := outx payload hcall.
+Inductive xobs := Xb (o : houtx) | XbExc.
+Definition behx0 (raisers : list Z) (f : func) (s : Z) (a : payload) : option hcall :=
+  if existsb (Z.eqb (fn_id f)) raisers then None else Some (mkcall f s a).
+
 Inductive input :=
 | InHist (h : list hop)
+| InHistX (h : list hop) (raisers : list Z)
 | InProg (h : list pop).
 
 Inductive observed :=
 | ObsHist (runs : list (list oobs))      (* one trace per implementation-side configuration *)
+| ObsHistX (runs : list (list xobs))
 | ObsProg (l : list pobs)
 | ObsCrash.
 
@@ -123,6 +133,43 @@ Fixpoint hist_clauses (p : list hop) (h : list hop) (obs : list oobs) : list Z :
   | _, _ => [21]
   end.
 
+Definition outx_eqb (a b : houtx) : bool :=
+  match a, b with
+  | XNone, XNone => true
+  | XError, XError => true
+  | XBad, XBad => true
+  | XEmit c r, XEmit c' r' => list_eqb call_eqb c c' && ret_eqb r r'
+  | XRaise c, XRaise c' => list_eqb call_eqb c c'
+  | _, _ => false
+  end.
+Definition xobs_eqb (m : houtx) (o : xobs) : bool := match o with Xb x => outx_eqb m x | XbExc => false end.
+Definition is_raise (o : houtx) : bool := match o with XRaise _ => true | _ => false end.
+
+(* an emit in a history with raising callbacks: when neither the reading nor the observation
+   involves an exception the clauses of the statement apply unchanged *)
+Definition emit_clauses_x (raisers : list Z) (p : list hop) (ev snd : Z) (a : payload)
+           (single : option bool) (o : xobs) : list Z :=
+  let sp := spec_emit_x (behx0 raisers) p ev snd a single in
+  match o with
+  | Xb (XEmit calls r) =>
+      if is_raise sp then [28] else emit_clauses p ev snd a single (Ob (OEmit calls r))
+  | Xb (XRaise calls) =>
+      if silenced_all p then [25] else flag 28 (outx_eqb sp (XRaise calls))
+  | _ => if silenced_all p then [25] else [21]
+  end.
+
+Fixpoint hist_clauses_x (raisers : list Z) (p : list hop) (h : list hop) (obs : list xobs) : list Z :=
+  match h, obs with
+  | o :: r, x :: obs' =>
+      (match o with Emit ev snd a single => emit_clauses_x raisers p ev snd a single x | _ => [] end) ++
+      hist_clauses_x raisers (p ++ [o]) r obs'
+  | [], [] => []
+  | _, _ => [21]
+  end.
+
+Definition has_bad_x (l : list houtx) : bool :=
+  existsb (fun o => match o with XBad => true | _ => false end) l.
+
 Definition has_bad (l : list hout) : bool :=
   existsb (fun o => match o with OBad => true | _ => false end) l.
 
@@ -157,6 +204,15 @@ Definition check (c : case) : list Z :=
       | ObsHist runs =>
           match runs with [] => [3] | _ => [] end ++
           flat_map (fun run => flag 1 (list_eqb oobs_eqb mo run) ++ hist_clauses [] h run) runs
+      | _ => [1; 21]
+      end
+  | InHistX h raisers, o =>
+      let mo := outs_x (behx0 raisers) init h in
+      if has_bad_x mo then [3] else
+      match o with
+      | ObsHistX runs =>
+          match runs with [] => [3] | _ => [] end ++
+          flat_map (fun run => flag 1 (list_eqb xobs_eqb mo run) ++ hist_clauses_x raisers [] h run) runs
       | _ => [1; 21]
       end
   | InProg h, o =>
